@@ -268,6 +268,7 @@ Proof.
     eapply (bw_write_notdone e Hh); [| |exact Ew]; [simpl; rewrite wh_berr; exact Hb|apply no_end_nil].
   - destruct (do_flush e false s) as [fr1 s1] eqn:Ef. intro H; inversion H; subst.
     eapply do_flush_notdone; eassumption.
+  - intro H; inversion H; subst. split; [apply no_end_nil|exact Hb].
 Qed.
 
 Lemma run_ops_notdone e : e_head e = false -> forall ops s fr s' res,
@@ -327,6 +328,7 @@ Proof.
     eapply (head_write e Hh); [|exact G]. apply (wh_head_inv e 200 s acc Hi).
   - destruct (do_flush e false s) as [fr1 s1] eqn:Ef. intro H; inversion H; subst.
     eapply do_flush_head; eassumption.
+  - intro H; inversion H; subst. rewrite app_nil_r. exact Hi.
 Qed.
 
 Lemma run_ops_head e : e_head e = true -> forall ops s acc fr s' res,
@@ -526,6 +528,7 @@ Proof.
       rewrite (write_chunk_data _ _ _ _ _ _ _ Hh Ew), C, Ebuf. reflexivity.
     + destruct (bw_flush_data _ _ _ _ _ Hh Hb Ef) as [Hd Hs]. destruct (Hs eq_refl) as [Hs1 _].
       rewrite Hd, Hs1, Ebuf, app_nil_r. reflexivity.
+  - intro H; inversion H; subst. simpl. rewrite app_nil_r. split; reflexivity.
 Qed.
 
 Lemma accepted_app w1 r1 w2 r2 :
@@ -587,6 +590,7 @@ Proof.
            match type of Es with context [bw_write fuel_write e p ?S []] =>
              destruct (bw_write fuel_write e p S []) as [[x1 x2]|] end; inversion Es; reflexivity.
         -- destruct (do_flush e false s0) as [x1 x2]. inversion Es; reflexivity.
+        -- inversion Es; reflexivity.
     + destruct (sentH s); [destruct B as [fl B]; rewrite B; reflexivity|rewrite B; reflexivity].
   - destruct (run_ops_notdone e Hh ops rws0 fr1 s1 res eq_refl Er) as [_ B].
     destruct (run_ops_data e Hh ops rws0 fr1 s1 res eq_refl Er) as [D L]. simpl in D.
@@ -681,14 +685,14 @@ Lemma conn_specific_tchar c : In c conn_specific -> forallb is_tchar c = true.
 Proof. intro H. repeat (destruct H as [<-|H]; [vm_compute; reflexivity|]). destruct H. Qed.
 
 Lemma not_conn hop k :
-  hop_ok hop -> canonical k -> mem_bytes k hop = false -> mem_bytes (to_lower k) conn_specific = false.
+  hop_ok hop -> mem_bytes (canon k) hop = false -> mem_bytes (to_lower k) conn_specific = false.
 Proof.
-  intros Hh Hc Hn. destruct (mem_bytes (to_lower k) conn_specific) eqn:E; [|reflexivity].
+  intros Hh Hn. destruct (mem_bytes (to_lower k) conn_specific) eqn:E; [|reflexivity].
   exfalso. apply mem_bytes_In in E.
   pose proof (conn_specific_tchar _ E) as Ht. rewrite tchar_to_lower in Ht.
   unfold hop_ok in Hh. rewrite forallb_forall in Hh. specialize (Hh _ E).
-  assert (Hk : canon (to_lower k) = k).
-  { unfold canonical, canon in *. rewrite tchar_to_lower, Ht in *. rewrite canon_go_lower. exact Hc. }
+  assert (Hk : canon (to_lower k) = canon k).
+  { unfold canon. rewrite tchar_to_lower, Ht. apply canon_go_lower. }
   rewrite Hk, Hn in Hh. discriminate.
 Qed.
 
@@ -741,24 +745,11 @@ Proof.
   intro H. apply insert_sorted_In in H. destruct H as [->|H]; [left; reflexivity|right; apply IH, H].
 Qed.
 
-(* state invariant: every key was produced by CanonicalMIMEHeaderKey; the snapshot holds no hop key *)
+(* state invariant: no key of the snapshot has a canonical form in the hop list; declared trailers are canonical *)
 Definition st_ok (hop : list bytes) (s : rws) : Prop :=
-  Forall canonical (hkeys (hh s))
-  /\ Forall (fun k => canonical k /\ mem_bytes k hop = false) (hkeys (snap s))
+  Forall (fun k => mem_bytes (canon k) hop = false) (hkeys (snap s))
   /\ Forall canonical (trailers s).
 
-Lemma hput_keys h k vv x : In x (hkeys (hput h k vv)) -> x = k \/ In x (hkeys h).
-Proof.
-  unfold hkeys. induction h as [|[k' v'] r IH]; simpl; [intros [<-|[]]; left; reflexivity|].
-  destruct (bytes_eqb k k') eqn:E; simpl.
-  - intros [<-|H]; [left; reflexivity|right; right; exact H].
-  - intros [<-|H]; [right; left; reflexivity|]. destruct (IH H) as [->|H']; [left; reflexivity|right; right; exact H'].
-Qed.
-Lemma hput_canon h k vv : Forall canonical (hkeys h) -> canonical k -> Forall canonical (hkeys (hput h k vv)).
-Proof.
-  intros Hh Hk. apply Forall_forall. intros x Hx. apply hput_keys in Hx. destruct Hx as [->|Hx]; [exact Hk|].
-  rewrite Forall_forall in Hh. apply Hh, Hx.
-Qed.
 Lemma filter_keys (f : bytes * list bytes -> bool) h x : In x (hkeys (filter f h)) -> In x (hkeys h) /\ exists vv, f (x, vv) = true.
 Proof.
   unfold hkeys. rewrite !in_map_iff. intros [[k vv] [<- Hin]]. apply filter_In in Hin. destruct Hin as [Hin Hf].
@@ -767,11 +758,11 @@ Qed.
 
 Lemma write_header_ok e c s : st_ok (e_hop e) s -> st_ok (e_hop e) (write_header e c s).
 Proof.
-  intros [A [B C]]. unfold write_header. destruct (wroteH s); [split; [exact A|split; [exact B|exact C]]|].
-  split; [exact A|]. split; [|exact C]. simpl.
+  intros [B C]. unfold write_header. destruct (wroteH s); [split; [exact B|exact C]|].
+  split; [|exact C]. simpl.
   destruct (hh s) as [|x r] eqn:Eh; [exact B|]. rewrite <- Eh in *.
   apply Forall_forall. intros k Hk. unfold clone_header in Hk. apply filter_keys in Hk. destruct Hk as [Hin [vv Hf]].
-  simpl in Hf. apply negb_true_iff in Hf. rewrite Forall_forall in A. split; [apply A, Hin|exact Hf].
+  simpl in Hf. apply negb_true_iff in Hf. exact Hf.
 Qed.
 
 Lemma declare_canon tr k : Forall canonical tr -> Forall canonical (declare_trailer tr k).
@@ -797,9 +788,9 @@ Lemma first_headers_ok e done p s f s1 es :
   hop_ok (e_hop e) -> st_ok (e_hop e) s -> first_headers e done p s = (f, s1, es) ->
   frame_ok f /\ st_ok (e_hop e) s1.
 Proof.
-  intros Hhop [A [B C]]. unfold first_headers. cbv zeta.
+  intros Hhop [B C]. unfold first_headers. cbv zeta.
   match goal with |- (match ?X with pair _ _ => _ end) = _ -> _ => destruct X as [[snp scl] clen1] eqn:EX end.
-  assert (Hsnp : Forall (fun k => canonical k /\ mem_bytes k (e_hop e) = false) (hkeys snp)).
+  assert (Hsnp : Forall (fun k => mem_bytes (canon k) (e_hop e) = false) (hkeys snp)).
   { assert (Hsub : forall x, In x (hkeys snp) -> In x (hkeys (snap s))).
     { destruct (hfirst (snap s) s_ContentLength); [inversion EX; subst; auto|].
       destruct (parse_int64 (z :: b)) as [n|]; [destruct (0 <=? n)|]; inversion EX; subst;
@@ -811,56 +802,52 @@ Proof.
       by (unfold status_field; destruct (status s =? 0); [reflexivity|apply K4]).
     assert (E2 : fields_ok (encode_headers snp (sort_keys (hkeys snp))) = true).
     { apply encode_ok. intros k Hk. apply sort_keys_In in Hk. rewrite Forall_forall in Hsnp.
-      destruct (Hsnp _ Hk) as [Hc Hn]. eapply not_conn; eassumption. }
+      eapply not_conn; [exact Hhop|apply Hsnp, Hk]. }
     rewrite E1, E2. simpl.
     repeat match goal with |- context [if ?c then _ else _] => destruct c end;
       repeat match goal with |- context [match ?c with [] => _ | _ => _ end] => destruct c end;
       rewrite ?K1, ?K2, ?K3; reflexivity.
-  - split; [exact A|]. split; [exact Hsnp|]. simpl. apply declare_snapshot_canon, C.
+  - split; [exact Hsnp|]. simpl. apply declare_snapshot_canon, C.
 Qed.
 
 Lemma promote_ok n h tr :
-  Forall canonical (hkeys h) -> Forall canonical tr ->
-  Forall canonical (hkeys (fst (promote n h tr))) /\ Forall canonical (snd (promote n h tr)).
+  Forall canonical tr -> Forall canonical (snd (promote n h tr)).
 Proof.
-  intros Hh Ht. unfold promote.
-  assert (G : forall l acc, Forall canonical (hkeys (fst acc)) -> Forall canonical (snd acc) ->
+  intros Ht. unfold promote.
+  assert (G : forall l (acc : hmap * list bytes), Forall canonical (snd acc) ->
     let r := fold_left (fun (acc : hmap * list bytes) (e : bytes * list bytes) =>
       let '(k, vv) := e in
       if is_prefix s_TrailerPrefix k then (hput (fst acc) (canon (skipn 8 k)) vv, declare_trailer (snd acc) (skipn 8 k))
       else acc) l acc in
-    Forall canonical (hkeys (fst r)) /\ Forall canonical (snd r)).
-  { induction l as [|[k vv] r IH]; intros acc A B; cbn [fold_left]; [split; assumption|].
+    Forall canonical (snd r)).
+  { induction l as [|[k vv] r IH]; intros acc B; cbn [fold_left]; [assumption|].
     apply IH; destruct (is_prefix s_TrailerPrefix k); cbn [fst snd]; try assumption.
-    - apply hput_canon; [exact A|apply canon_idem].
-    - apply declare_canon, B. }
-  specialize (G (perm_nth n (filter (fun e => is_prefix s_TrailerPrefix (fst e)) h)) (h, tr) Hh Ht). cbv zeta in G.
-  destruct (fold_left _ (perm_nth n (filter (fun e => is_prefix s_TrailerPrefix (fst e)) h)) (h, tr)) as [h' tr'] eqn:E. simpl in G. destruct G as [G1 G2]. simpl.
-  split; [exact G1|].
-  destruct tr' as [|a [|b r]]; try exact G2.
-  apply Forall_forall. intros x Hx. apply sort_keys_In in Hx. rewrite Forall_forall in G2. apply G2, Hx.
+    apply declare_canon, B. }
+  specialize (G (perm_nth n (filter (fun e => is_prefix s_TrailerPrefix (fst e)) h)) (h, tr) Ht). cbv zeta in G.
+  destruct (fold_left _ (perm_nth n (filter (fun e => is_prefix s_TrailerPrefix (fst e)) h)) (h, tr)) as [h' tr'] eqn:E. simpl in G. simpl.
+  destruct tr' as [|a [|b r]]; try exact G.
+  apply Forall_forall. intros x Hx. apply sort_keys_In in Hx. rewrite Forall_forall in G. apply G, Hx.
 Qed.
 
 Lemma body_frames_ok e done p s1 fr s2 :
   hop_ok (e_hop e) -> st_ok (e_hop e) s1 -> body_frames e done p s1 = (fr, s2) ->
   frames_ok fr /\ st_ok (e_hop e) s2.
 Proof.
-  intros Hhop [A [B C]]. unfold body_frames.
-  assert (Hp : Forall canonical (hkeys (fst (if done then promote (e_perm e) (hh s1) (trailers s1) else (hh s1, trailers s1))))
-            /\ Forall canonical (snd (if done then promote (e_perm e) (hh s1) (trailers s1) else (hh s1, trailers s1))))
-    by (destruct done; [apply promote_ok; assumption|split; assumption]).
-  destruct (if done then promote (e_perm e) (hh s1) (trailers s1) else (hh s1, trailers s1)) as [h2 tr2]. simpl in Hp.
-  destruct Hp as [P1 P2].
+  intros Hhop [B C]. unfold body_frames.
+  assert (P2 : Forall canonical (snd (if done then promote (e_perm e) (hh s1) (trailers s1) else (hh s1, trailers s1))))
+    by (destruct done; [apply promote_ok; assumption|assumption]).
+  destruct (if done then promote (e_perm e) (hh s1) (trailers s1) else (hh s1, trailers s1)) as [h2 tr2]. simpl in P2.
   assert (Hfr2 : forall es, frames_ok (if (0 <? blen p) || es then [FD es p] else []))
     by (intro es; destruct ((0 <? blen p) || es); [apply frames_ok_one; exact I|apply frames_ok_nil]).
   assert (Hst : st_ok (e_hop e) (mkR h2 (wroteH s1) (status s1) (snap s1) (sentH s1) tr2 (sentCL s1) (wroteB s1) (buf s1) (berr s1)))
-    by (split; [exact P1|split; [exact B|exact P2]]).
+    by (split; [exact B|exact P2]).
   destruct (done && match tr2 with [] => false | _ => true end).
   - destruct (encode_trailers (e_hop e) h2 tr2) as [|f0 fl] eqn:Ee; intro H; inversion H; subst; (split; [|exact Hst]).
     + apply frames_ok_app; [apply Hfr2|apply frames_ok_one; exact I].
     + apply frames_ok_app; [apply Hfr2|apply frames_ok_one]. unfold frame_ok. rewrite <- Ee.
       unfold encode_trailers. apply encode_ok. intros k Hk. apply filter_In in Hk. destruct Hk as [Hk Hn].
-      apply negb_true_iff in Hn. rewrite Forall_forall in P2. eapply not_conn; [exact Hhop|apply P2, Hk|exact Hn].
+      apply negb_true_iff in Hn. rewrite Forall_forall in P2. eapply not_conn; [exact Hhop|].
+      rewrite (P2 _ Hk). exact Hn.
   - intro H; inversion H; subst. split; [apply Hfr2|exact Hst].
 Qed.
 
@@ -931,10 +918,8 @@ Lemma step_ok e o s fr s' res :
   hop_ok (e_hop e) -> st_ok (e_hop e) s -> step e o s = (fr, s', res) -> frames_ok fr /\ st_ok (e_hop e) s'.
 Proof.
   intros Hhop Hs. destruct o; cbn [step]; cbv zeta.
-  - intro H; inversion H; subst. split; [apply frames_ok_nil|]. destruct Hs as [A [B C]].
-    split; [simpl; apply hput_canon; [exact A|apply canon_idem]|split; assumption].
-  - intro H; inversion H; subst. split; [apply frames_ok_nil|]. destruct Hs as [A [B C]].
-    split; [simpl; apply hput_canon; [exact A|apply canon_idem]|split; assumption].
+  - intro H; inversion H; subst. split; [apply frames_ok_nil|exact Hs].
+  - intro H; inversion H; subst. split; [apply frames_ok_nil|exact Hs].
   - intro H; inversion H; subst. split; [apply frames_ok_nil|apply write_header_ok, Hs].
   - pose proof (write_header_ok e 200 s Hs) as Hs1.
     destruct (negb (body_allowed (status (write_header e 200 s))));
@@ -948,6 +933,7 @@ Proof.
     eapply (bw_write_ok e Hhop); [| |exact Ew]; [exact Hs1|apply frames_ok_nil].
   - destruct (do_flush e false s) as [fr1 s1] eqn:Ef. intro H; inversion H; subst.
     eapply do_flush_ok; eassumption.
+  - intro H; inversion H; subst. split; [apply frames_ok_nil|exact Hs].
 Qed.
 
 Lemma run_ops_ok e : hop_ok (e_hop e) -> forall ops s fr s' res,
@@ -969,7 +955,7 @@ Proof.
   intros Hhop es fl Hin. unfold frames_of, run_handler in Hin.
   destruct (run_ops e ops rws0) as [[fr1 s1] res1] eqn:Er.
   destruct (do_flush e true s1) as [fr2 s2] eqn:Ef. simpl in Hin.
-  assert (H0 : st_ok (e_hop e) rws0) by (repeat split; constructor).
+  assert (H0 : st_ok (e_hop e) rws0) by (split; constructor).
   destruct (run_ops_ok e Hhop _ _ _ _ _ H0 Er) as [F1 S1].
   destruct (do_flush_ok _ _ _ _ _ Hhop S1 Ef) as [F2 _].
   apply (frames_ok_app _ _ F1 F2 _ Hin).
@@ -1198,6 +1184,7 @@ Proof.
     + assert (Hq' : wq S s) by (apply Hq; discriminate).
       destruct (fl_shape _ _ _ _ _ _ Hq' Ha Ef) as [A Q].
       split; [unfold sinv; destruct Q as [Q1 Q2]; rewrite Q1; exact Q2|exact A].
+  - intro H; inversion H; subst. rewrite app_nil_r. split; [exact Hs|exact Ha].
 Qed.
 
 Lemma run_ops_shape e S : forall ops s acc fr s' res,
@@ -1575,6 +1562,7 @@ Proof.
   change (hop_okb (e_hop e0)) with (hop_okb (e_hop (with_perm n e0))) in Hhop.
   set (e := with_perm n e0) in *. cbv zeta.
   destruct (run_handler e ops) as [[fr res] s] eqn:Hr.
+  unfold prop_stream. change (e_open e0) with (e_open e). change (prop_frames e0 ops) with (prop_frames e ops).
   rewrite strip_rst_after, dec_enc_frames, as_LZ_vLZ. unfold prop_frames.
   destruct (body_exact _ _ _ _ _ Hr) as [Hlen Hdata].
   rewrite Hlen, Nat.eqb_refl. cbn [andb].
@@ -1608,9 +1596,15 @@ Theorem prop_C38_central i : wf_C38 i = true -> kf_C38 i = 0 -> prop_C38 i (run_
 Proof. apply prop_C38_central_perm. Qed.
 
 (* the correspondence predicate accepts the model's own observation, for every iteration order it enumerates *)
+Lemma run_perm_two n i : exists a b, run_perm n i = VL [a; b].
+Proof.
+  unfold run_perm. destruct (dec_input i) as [[e ops]|]; [|eexists; eexists; reflexivity].
+  cbv zeta. destruct (run_handler (with_perm n e) ops) as [[fr res] s]. eexists; eexists; reflexivity.
+Qed.
 Lemma agree_C38_perm n i : In n perms -> agree_C38 i (run_perm n i) = true.
 Proof.
-  intro Hn. unfold agree_C38. apply existsb_exists. exists n. split; [exact Hn|apply val_eqb_refl].
+  intro Hn. destruct (run_perm_two n i) as [a [b E]]. rewrite E. unfold agree_C38.
+  apply existsb_exists. exists n. split; [exact Hn|]. rewrite E. apply val_eqb_refl.
 Qed.
 
 (* two "Trailer:" keys naming the same trailer: the value sent depends on Go's map iteration order; both outcomes
@@ -1738,3 +1732,137 @@ Lemma wire_example :
   wire_frames 3 4 [FH false []; FD true [1;2;3;4;5;6;7;8;9;10]]
   = [FH false []; FD false [1;2;3;4]; FD false [5;6;7]; FD true [8;9;10]].
 Proof. vm_compute. reflexivity. Qed.
+
+(* ---------- the HEADERS/CONTINUATION split of a header block ---------- *)
+Lemma split_block_nil fuel m : split_block fuel m [] = [].
+Proof. destruct fuel; reflexivity. Qed.
+
+Lemma blen_length (b : bytes) : blen b = Z.of_nat (length b). Proof. reflexivity. Qed.
+
+(* one round of the loop: the fragment is a non-empty prefix of at most m bytes, the rest is strictly shorter *)
+Lemma split_round m (b : bytes) :
+  0 < m -> b <> [] ->
+  let frag := if m <? blen b then firstn (Z.to_nat m) b else b in
+  let rest := skipn (length frag) b in
+  frag ++ rest = b /\ 0 < blen frag <= m /\ (length rest < length b)%nat
+  /\ blen frag = (if m <? blen b then m else blen b) /\ blen rest = blen b - blen frag.
+Proof.
+  intros Hm Hb. cbv zeta. unfold blen.
+  assert (Hlb : (0 < length b)%nat) by (destruct b; [contradiction|simpl; lia]).
+  destruct (m <? Z.of_nat (length b)) eqn:E.
+  - apply Z.ltb_lt in E.
+    assert (Hk : (Z.to_nat m <= length b)%nat) by lia.
+    rewrite (firstn_length_le b Hk). rewrite firstn_skipn, skipn_length.
+    split; [reflexivity|]. split; [lia|]. split; [lia|]. split; lia.
+  - apply Z.ltb_ge in E. rewrite skipn_all, app_nil_r. simpl length.
+    split; [reflexivity|]. split; [lia|]. split; [lia|]. split; lia.
+Qed.
+
+Theorem split_block_ok m : 0 < m -> forall fuel b, (length b <= fuel)%nat ->
+  let fs := split_block fuel m b in
+  concat (map fst fs) = b
+  /\ Forall (fun x => 0 < blen (fst x) <= m) fs
+  /\ (b <> [] -> exists pre l, fs = pre ++ [(l, true)] /\ Forall (fun x => snd x = false) pre).
+Proof.
+  intro Hm. induction fuel as [|f IH]; intros b Hl; cbv zeta.
+  - destruct b; [|simpl in Hl; lia]. simpl. split; [reflexivity|]. split; [constructor|]. intro H; contradiction.
+  - destruct b as [|c r]; [simpl; split; [reflexivity|]; split; [constructor|]; intro H; contradiction|].
+    assert (Hb : c :: r <> []) by discriminate.
+    destruct (split_round m (c :: r) Hm Hb) as [Hcat [Hlen [Hshort _]]]. cbv zeta in *.
+    cbn [split_block].
+    remember (c :: r) as b eqn:Eb.
+    set (frag := if m <? blen b then firstn (Z.to_nat m) b else b) in *.
+    set (rest := skipn (length frag) b) in *.
+    assert (Hrl : (length rest <= f)%nat) by lia.
+    destruct (IH rest Hrl) as [I1 [I2 I3]]. cbv zeta in *.
+    cbn [map fst concat]. rewrite I1. split; [exact Hcat|]. split; [constructor; [exact Hlen|exact I2]|].
+    intros _. destruct rest as [|r0 rr] eqn:Er.
+    + rewrite split_block_nil. exists [], frag. split; [reflexivity|constructor].
+    + rewrite <- Er in *. assert (Hr : rest <> []) by (rewrite Er; discriminate).
+      destruct (I3 Hr) as [pre [l [E Hp]]]. exists ((frag, false) :: pre), l. rewrite E.
+      split; [reflexivity|]. constructor; [reflexivity|exact Hp].
+Qed.
+
+(* the statement for the real constant *)
+Theorem header_fragments_ok b :
+  let fs := header_fragments b in
+  concat (map fst fs) = b
+  /\ Forall (fun x => 0 < blen (fst x) <= max_hdr_frame) fs
+  /\ (b <> [] -> exists pre l, fs = pre ++ [(l, true)] /\ Forall (fun x => snd x = false) pre).
+Proof. apply split_block_ok; [reflexivity|apply Nat.le_refl]. Qed.
+
+(* lengths: the executable split the harness observation is validated against is the split of the block *)
+Definition frag_len (x : bytes * bool) : Z * bool := (blen (fst x), snd x).
+
+Lemma split_lens_block m : 0 < m -> forall fuel b, map frag_len (split_block fuel m b) = split_lens fuel m (blen b).
+Proof.
+  intro Hm. induction fuel as [|f IH]; intros b; [reflexivity|].
+  destruct b as [|c r]; [reflexivity|].
+  assert (Hb : c :: r <> []) by discriminate.
+  destruct (split_round m (c :: r) Hm Hb) as [_ [Hlen [_ [Hfl Hrl]]]]. cbv zeta in *.
+  cbn [split_block split_lens]. remember (c :: r) as b eqn:Eb.
+  set (frag := if m <? blen b then firstn (Z.to_nat m) b else b) in *.
+  set (rest := skipn (length frag) b) in *.
+  assert (Hpos : (blen b <=? 0) = false) by (apply Z.leb_gt; subst b; unfold blen; simpl length; lia).
+  rewrite Hpos. cbn [map]. rewrite IH, Hrl. unfold frag_len at 1. cbn [fst snd]. rewrite Hfl.
+  f_equal. f_equal. rewrite <- Hfl, <- Hrl.
+  destruct rest as [|r0 rr]; [reflexivity|]. unfold blen. simpl length. symmetry. apply Z.eqb_neq. lia.
+Qed.
+
+Lemma split_lens_fuel m : 0 < m -> forall f1 f2 l,
+  l <= Z.of_nat f1 * m -> l <= Z.of_nat f2 * m -> split_lens f1 m l = split_lens f2 m l.
+Proof.
+  intro Hm. induction f1 as [|f1 IH]; intros f2 l H1 H2.
+  - assert (l <= 0) by lia. destruct f2; [reflexivity|]. simpl.
+    replace (l <=? 0) with true by (symmetry; apply Z.leb_le; lia). reflexivity.
+  - destruct f2 as [|f2].
+    + assert (l <= 0) by lia. simpl. replace (l <=? 0) with true by (symmetry; apply Z.leb_le; lia). reflexivity.
+    + cbn [split_lens]. destruct (l <=? 0) eqn:E; [reflexivity|]. apply Z.leb_gt in E.
+      f_equal. apply IH; destruct (m <? l) eqn:Em;
+        try (apply Z.ltb_lt in Em); try (apply Z.ltb_ge in Em); rewrite ?Nat2Z.inj_succ in *; nia.
+Qed.
+
+Theorem header_fragment_lens_of_block b :
+  header_fragment_lens (blen b) = map frag_len (header_fragments b).
+Proof.
+  unfold header_fragment_lens, header_fragments.
+  rewrite (split_lens_block max_hdr_frame eq_refl).
+  apply (split_lens_fuel max_hdr_frame eq_refl).
+  - rewrite Nat2Z.inj_add, Z2Nat.id by (apply Z.div_pos; [unfold blen; lia|reflexivity]).
+    pose proof (Z.mul_succ_div_gt (blen b) max_hdr_frame eq_refl). unfold max_hdr_frame in *. lia.
+  - unfold blen, max_hdr_frame. nia.
+Qed.
+
+(* the executable predicate of prop_C38 on the fragment lengths holds of the model's split of every non-empty block *)
+Lemma block_ok_split m : 0 < m -> m = max_hdr_frame -> forall fuel l,
+  0 < l -> l <= Z.of_nat fuel * m -> block_ok (split_lens fuel m l) = true.
+Proof.
+  intros Hm Em. induction fuel as [|f IH]; intros l Hl Hf; [simpl in Hf; lia|].
+  cbn [split_lens]. replace (l <=? 0) with false by (symmetry; apply Z.leb_gt; lia).
+  destruct (m <? l) eqn:E.
+  - apply Z.ltb_lt in E. replace (l - m =? 0) with false by (symmetry; apply Z.eqb_neq; lia).
+    assert (Hrec : block_ok (split_lens f m (l - m)) = true)
+      by (apply IH; [lia|rewrite Nat2Z.inj_succ in Hf; nia]).
+    destruct (split_lens f m (l - m)) as [|y ys] eqn:Es; [discriminate|].
+    change (block_ok ((m, false) :: y :: ys)) with ((0 <? m) && (m <=? max_hdr_frame) && negb false && block_ok (y :: ys)).
+    rewrite Hrec. rewrite <- Em.
+    replace (0 <? m) with true by (symmetry; apply Z.ltb_lt; lia). rewrite Z.leb_refl. reflexivity.
+  - apply Z.ltb_ge in E. replace (l - l) with 0 by lia. cbn [Z.eqb].
+    assert (Hn : split_lens f m 0 = []) by (destruct f; reflexivity). rewrite Hn. cbn [block_ok].
+    replace (0 <? l) with true by (symmetry; apply Z.ltb_lt; lia). rewrite <- Em.
+    replace (l <=? m) with true by (symmetry; apply Z.leb_le; lia). reflexivity.
+Qed.
+
+Theorem header_fragment_lens_ok l : 0 < l -> block_ok (header_fragment_lens l) = true.
+Proof.
+  intro Hl. unfold header_fragment_lens. apply (block_ok_split max_hdr_frame eq_refl eq_refl); [exact Hl|].
+  rewrite Nat2Z.inj_add, Z2Nat.id by (apply Z.div_pos; [lia|reflexivity]).
+  pose proof (Z.mul_succ_div_gt l max_hdr_frame eq_refl). unfold max_hdr_frame in *. lia.
+Qed.
+
+Lemma header_fragments_examples :
+  map snd (header_fragment_lens 16383) = [true] /\ header_fragment_lens 16384 = [(16384, true)]
+  /\ header_fragment_lens 16385 = [(16384, false); (1, true)]
+  /\ header_fragment_lens 32768 = [(16384, false); (16384, true)]
+  /\ header_fragment_lens 32769 = [(16384, false); (16384, false); (1, true)].
+Proof. vm_compute. repeat split; reflexivity. Qed.
